@@ -1073,7 +1073,7 @@ def evaluate(t, env, memo=None):
                 raise
             except Exception as e:
                 raise CannotEval("%s raises %s" % (repr(t)[:80], type(e).__name__))
-        elif op == "re.compile" and t.args and all(isinstance(a, (Const, Ext)) for a in t.args):
+        elif op == "re.compile" and t.args and all(isinstance(a, (Const, Ext)) for a in t.args[1:]):
             # the meaning of a constant regular expression is that of the standard library's engine
             import re as _re
             flags = 0
@@ -1083,7 +1083,13 @@ def evaluate(t, env, memo=None):
                 if fl is None:
                     raise CannotEval(repr(t)[:120])
                 flags |= fl
-            r = _re.compile(t.args[0].v, flags)
+            patt = evaluate(t.args[0], env, memo)
+            if not isinstance(patt, (str, bytes)):
+                raise CannotEval(repr(t)[:120])
+            try:
+                r = _re.compile(patt, flags)
+            except _re.error:
+                raise CannotEval("invalid regular expression %r" % (patt,))
         elif op in ("m:fullmatch", "m:match", "m:search") and len(t.args) == 2:
             pat, subj = evaluate(t.args[0], env, memo), evaluate(t.args[1], env, memo)
             if not hasattr(pat, "fullmatch") or not isinstance(subj, (str, bytes)):
@@ -1116,6 +1122,13 @@ def evaluate(t, env, memo=None):
             r = b[i]
         elif op == "int" and len(t.args) == 1:
             r = int(evaluate(t.args[0], env, memo))
+        elif op == "dictget" and len(t.args) == 3:
+            d, key = evaluate(t.args[0], env, memo), evaluate(t.args[1], env, memo)
+            if not isinstance(d, dict):
+                raise CannotEval(repr(t)[:120])
+            r = d[key] if key in d else evaluate(t.args[2], env, memo)
+        elif op == "keyerror":
+            raise CannotEval("KeyError " + repr(t)[:100])
         elif op == "m:join" and len(t.args) == 2:
             sep, seq = evaluate(t.args[0], env, memo), evaluate(t.args[1], env, memo)
             if not isinstance(sep, (str, bytes)):
